@@ -56,6 +56,29 @@ claims.update({
    ref="DESIGN.md section 4.C19"),
 })
 
+claims.update({
+ "C01": dict(
+   text="Proof of the queue mechanism contracts behind 'nothing accepted is lost': pushTask appends exactly one task (whole-sequence postcondition) unless stopped; Publish/Subscribe/Unsubscribe push the task closure over the caller's arguments; RetryClient.publish/subscribe/unsubscribe either transmit (queue empty) or append a deferred closure behind the queue; a failed QoS>0 request appends its retry handle and marks the connection for closing; every interrupted base-client request returns a retry error whose handle re-issues the same request; Retry re-queues exactly continuation + not-yet-attempted entries (exact sequence equality).",
+   note="Liveness ('eventually acknowledged'), lost-wakeup freedom of chTask and the cross-goroutine composition (invariant I1, DESIGN.md 4.C01) are not decided. Not yet under contract: the task loop (SetClient$1), Resubscribe, the reconnect loop. Closure invariants are checked at direct calls and assumed for entries invoked from the queue (fntype retryFn).",
+   ref="DESIGN.md section 4.C01"),
+ "C03": dict(
+   text="Proof that every queue transformer preserves order: append-only with exact prefix equality, direct transmission only when the retry queue is empty, deferred requests appended behind the queue, Retry invokes old[0], old[1], ... in index order and re-queues continuation followed by the untouched tail, no goroutine is started by a task closure.",
+   note="Per-connection wire order as a whole-history statement is a paper lemma (I2, DESIGN.md 4.C03). Not yet under contract: task loop FIFO pop, reconnect ordering of Resubscribe before Retry.",
+   ref="DESIGN.md section 4.C03"),
+ "C08": dict(
+   text="Proof for the bookkeeping functions: subscriptions.applyTo appends exactly its argument; unsubscriptions.applyTo is panic-free, never grows the list, preserves duplicate-freedom and (on a duplicate-free list) removes every listed filter; subscribe/unsubscribe closures apply the bookkeeping exactly once, with the request's own arguments, before the request is sent. One recorded finding: subscriptions.applyTo does not preserve duplicate-freedom (D7).",
+   note="Known finding D7 is reported as KNOWN-FINDING. Not yet under contract: Resubscribe (D8 ordering against deferred unsubscribes), the resubscribe condition in the reconnect loop. Convergence as a whole-history statement is a paper lemma.",
+   ref="DESIGN.md section 4.C08"),
+ "C16": dict(
+   text="Proof of the connection state machine pieces: connStateUpdate (Disconnected absorbing, callback exactly when the state changed, with the new state and Err()), SetErrorOnce (first error wins), Connect reports Active exactly once and only on an accepting CONNACK, the reader goroutine's exit sequence serve -> Close -> store error unless Disconnected -> Closed -> close(Done), Disconnect sets Disconnected before writing DISCONNECT, Done() returns connClosed which only the reader goroutine closes.",
+   note="Lock-guarded fields are modelled as arbitrary at each acquisition (values 'at lock time' via guardVal). Not yet under contract: the keep-alive goroutine of the reconnecting client (own-client error, D5). The relative order of Active and Closed when CONNACK and connection end race is not decided.",
+   ref="DESIGN.md section 4.C16"),
+ "C18": dict(
+   text="Proof that every request issued by a task closure (first transmissions and, after the fix, retransmissions) uses a context produced by requestContext from the task context, that a failing request is reported through onError, queued with its retry handle and marks the connection for closing (newRetryByError), and that requestContext wraps WithTimeout(ctx, ResponseTimeout) when a timeout is configured.",
+   note="Not yet under contract: the task loop closing the client when newRetryByError is set, (*requestContext).Err returning RequestTimeoutError. Real time is not modelled.",
+   ref="DESIGN.md section 4.C18"),
+})
+
 checks = []
 for pid in ids:
     if pid not in claims:
